@@ -1,24 +1,66 @@
 #!/usr/bin/env python3
 """Writes MANIFEST.json from the table below (keeps the 20 entries consistent)."""
-import json, os
+import json
+import os
+
 HERE = os.path.dirname(os.path.abspath(__file__))
 VERIF = os.path.dirname(HERE)
 props = [json.loads(l) for l in open(os.path.join(VERIF, 'properties.jsonl'))]
 ids = [p['id'] for p in props]
 
-# id -> (technique, level text, level note, design ref)
+COMMON_NOTE = ('Exact rationals instead of IEEE doubles (rounding enters only as explicit tolerances / perturbations); '
+               'elementary functions and numpy/scipy/pandas are parameters or contracts; the hand-written model is tied to the code '
+               'by tables regenerated from the source on every run and by the correspondence harness; axioms limited to propext, '
+               'Classical.choice, Quot.sound (audited per theorem on every run).')
+
+# id -> (technique, what the theorems say + how the model is tied, design ref)
 CLAIMED = {
+ 'C01': ('Lean 4 proof: invariant by induction over chain, instants and schedule operations + whole-history correspondence',
+         'C01.C01: for every configuration (any chain, load function, controller) and every list of schedule operations, every recorded instant is kinematically coupled (position, speed, acceleration; held instants included). Tie: random chains of all element kinds in random units run on the real solver and on the compiled model, whole histories compared, oracle recomputes up = ratio x down.'),
+ 'C02': ('Lean 4 proof: record invariant (driving/load/net torque laws, load = user function at the recorded state) + whole-history correspondence',
+         'C02.C02 for every load function and motor characteristic, every history; index and division-free forms; C02_current. Tie: the harness logs the arguments the real code passes to the load function and compares histories with the model.'),
+ 'C03': ('Lean 4 proof: equation of motion per record, step relation between consecutive records by induction over loops/runs + correspondence',
+         'C03_acc (not held => acceleration = net torque / documented inertia reduction) and loop_steps/run_steps (consecutive records satisfy the semi-implicit update, fresh and continued runs). Tie: whole-history and lock-step correspondence, inertias/dt/initial conditions in random units.'),
+ 'C04': ('Lean 4 proof: reduction of the model step to an affine map (Q) + Euler-vs-exponential bound in R (Mathlib analysis); order of convergence measured',
+         'record_acc_affine, affine_iter, euler_exp_err, speed_error_bound: the simulated speed stays within |w0-winf| (k t)(k dt) of the closed form at every instant. The position bound and the halving of the error are checked numerically against the implementation (labelled test). Tie: lock-step correspondence + closed-form comparison at dt, dt/2, dt/4, dt/8.'),
+ 'C05': ('Lean 4 proof: table theorems by decide +kernel on the regenerated unit table vs an independent SI spec + field laws for conversion and comparison',
+         'factor_matches_SI / unit_names_match_SI (every unit of every kind against first-principles SI definitions), gen_good, conversion laws, cmp_unit_blind / cmp_distinct_partial / eq_symm_partial; the relative-tolerance statement is false of the code (K1 witness theorems). Tie: exhaustive unit pairs x magnitudes on both sides, including CPython reflected comparison dispatch.'),
  'C06': ('Lean 4 proof: finite kind skeleton (case analysis) + SI congruence (field reasoning); exhaustive cell-by-cell correspondence',
-         'Theorems over the unit-carrying model: every returned result has the kind dimensional analysis dictates (binop_kind, all 14x14x4 cells), its SI magnitude is the sum/product/quotient of the operands\' for every unit choice and every rational value (add_si, mul_si, div_si, div_num_si), (a+b)-b = a, a-b = -(b-a); subtraction proved with exactly the two K2 call sites excluded and the negation proved by witness. The model is tied to the code by running every cell x units x magnitudes on both.',
-         'Exact rationals instead of IEEE doubles (rounding not modelled); model hand-written and tied by the correspondence harness; unit factors regenerated from the source each run.',
-         '6 C06'),
+         'binop_kind (all 14x14x4 cells), add_si/mul_si/div_si/div_num_si, qty_add_sub_cancel, sub_antisymm; subtraction proved with exactly the two K2 call sites excluded and the negation proved by witness. Tie: every cell x units x magnitudes on both sides.'),
+ 'C07': ('Lean 4 proof: congruence of every unit-aware operation + unit-invariance of each raw-value site; metamorphic correspondence',
+         'conv/add/mul/div/ratio/cmp congruence, grid_unit_invariant, signTest_unit_invariant, wormRow_unit_invariant, scaledValue_si, cmpRaw_scale. The end-to-end statement is checked metamorphically: each model run twice with every input re-expressed in another unit (round-robin over every unit list).'),
+ 'C08': ('Lean 4 proof: closed forms, boundary identities, odd symmetry of the torque and current laws (field reasoning) + boundary-stream correspondence',
+         'torque/current closed forms on both sides of the dead zone, exact zero inside, standstill/no-load values at D = 1, explicit boundary identities, torque_odd/current_odd, current_total. Tie: real DCMotor vs model vs documented formula on random and +-k ulp boundary points.'),
+ 'C09': ('Lean 4 proof: exhaustive decide +kernel over teeth 10..600 on the regenerated Lewis table + algebraic identities for force/bending/contact + flag iffs',
+         'lewis_sorted, lewis_int (exhaustive), clamp/between/at-row lemmas, force/bending/worm formulas, contact_closed_form, flags_iff, wormWheel_bending_iff, contact_mate_error_iff. Tie: real gear classes vs independent Python oracle vs model for all subsets of optional data.'),
+ 'C10': ('Lean 4 proof: plan-then-write model of the three declaration functions; rejected => heap unchanged for any call sequence; post-conditions; efficiency-range iffs',
+         'rejected_unchanged / declareAll_step, gear_post / worm_post / joint_post, gear_rejects / joint_rejects, accepted_ratio_pos / accepted_eff_range, wormEff_range_master / wormEff_range_wheel. Tie: random pools and call sequences (mostly-valid and malformed streams), every element snapshotted before/after every call on both sides.'),
+ 'C11': ('Lean 4 proof: exact grid laws on the unit-carrying time axis + robustness of the guarded floor under bounded rounding perturbation (and fragility of the arange count)',
+         'steps_exact, never_beyond, fresh_axis, continued_axis, stopped_axis_prefix, axis_spacing/strictMono, count_robust, guard_suffices, arange_fragile. Tie: sweep of decimal dt x n x units through the real Solver.run (physics patched out in-process) vs the grid model.'),
+ 'C12': ('Lean 4 proof: schedule equivalence (run split by grid/loop append; rerun after reset by equality of the first compute) + negation witness for the unprovisoed statement',
+         'run_split, run_split_units, rerun_eq (same or new solver) under the proviso that reset restores the pre-run duty cycle or the chain is not self-locking; K3_witness / rerun_full_false show the proviso is necessary (known finding K3). Tie: schedule pairs on the real code, whole histories vs model.'),
+ 'C13': ('Lean 4 proof: lock state machine invariants (never clamped without self-locking, sign safety, held still, release condition)',
+         'never_clamped over all histories, sign_safe, held_still, held_state, release_only_if. Tie: overloaded self-locking chains on both sides, lock flag compared at every instant.'),
+ 'C14': ('Lean 4 proof: decision logic of the arbitration + range invariant over all histories',
+         'arbitrate_none/one/two/nan, arbitrate_range, recorded_in_range (every recorded duty cycle of every history within [-1,1]), conflict_stops. Tie: rule sets with overlapping windows and out-of-range proposals, whole simulations (lock-step) and stub-rule arbitration on the real PWMControl.'),
+ 'C15': ('Lean 4 proof: window/value characterisation of the four rules + root of the current law (cross-module with C08)',
+         'constant_window, reach_rule, ramp_rule (+ endpoints), limit_rule, limit_root, limit_outside_deadzone, limit_current_exact (the motor current law at the proposed duty cycle equals the limit). Tie: controlled simulations, documented formulas recomputed from the recorded state, recorded current = limit while in force.'),
+ 'C16': ('Lean 4 proof: the stopped loop is the unstopped loop over a prefix of the grid; predicate false on every strict prefix, true at the end if stopped early',
+         'stop_prefix, stop_times, stopNow_stopCond. Tie: thresholds placed between consecutive readings of the unstopped run, stopped history compared with the prefix and with the model.'),
+ 'C17': ('Lean 4 proof: bookkeeping invariant (one sample per instant per present key) by induction over update/reset sequences; advertised iff recorded for all kinds x data subsets',
+         'advertised_iff_records, lengths_inv, export_total, last_is_attr. Tie: all element kinds x optional-data subsets x schedules; keys/lengths vs model; export and snapshot executed on every simulated powertrain.'),
+ 'C18': ('Lean 4 proof: interpolation at knots / between knots on strictly increasing axes, commutation with unit conversion, column selection logic',
+         'interp_at_knot, interp_between, interp_within, cell_linear, columns_subset/complete, reports_iff, sortOrder_matches. Tie: real snapshot tables and re-read CSV exports compared cell by cell with the oracle and the model.'),
+ 'C19': ('Lean 4 proof: validity invariant over all straight-line programs of quantity operations (induction on the program) + constructor iffs',
+         'valid_inv (every live object valid after every step of every program), sub_none_unreachable, mk_ok_iff, motorCtor_ok_iff, setPwm_ok_iff. Tie: random 40-step programs with store inspection on both sides, tiny-value stream (finds K4), constructor boundary cases.'),
+ 'C20': ('Lean 4 proof: chain walk (with fuel) is linked by drives and suffix-closed; error cases; self-locking flag iff',
+         'chain_head, chain_links, chain_suffix, assemble_elements, assemble_errors, selfLocking_iff. Tie: declaration sequences producing chains (with re-routing and duplicate names), every motor assembled, read-only and later-declaration checks on the real Powertrain.'),
 }
-NOT_YET = 'check not built yet in this revision of the framework (the property is decidable by the technique; see DESIGN.md section 6)'
 
 checks = []
 for pid in ids:
     if pid in CLAIMED:
-        tech, text, note, ref = CLAIMED[pid]
+        tech, text = CLAIMED[pid]
         checks.append({
             'property_id': pid,
             'quick_cmd': f'/venv/bin/python tools/check.py {pid} --tier quick',
@@ -26,22 +68,23 @@ for pid in ids:
             'evidence_file': f'evidence/{pid}.json',
             'replay_cmd_template': f'/venv/bin/python tools/check.py {pid} --replay {{path}}',
             'engine': 'lean-model+correspondence',
-            'level_claimed': {'category': 'proof', 'text': text, 'design_ref': ref},
-            'level_note': note,
+            'level_claimed': {'category': 'proof', 'text': text, 'design_ref': f'section 6, {pid}'},
+            'level_note': COMMON_NOTE,
             'technique': tech,
         })
 manifest = {
  'version': 1,
  'setup_cmd': 'bash tools/setup.sh',
- 'hooks': {'guard': 'GEARPY_VERIF', 'enable': 'no hooks are needed: every observable is public API (plus name-mangled attributes the repository\'s own tests use); GEARPY_VERIF is reserved and unused',
+ 'hooks': {'guard': 'GEARPY_VERIF',
+           'enable': 'no hooks are needed: every observable is public API (plus name-mangled attributes the repository\'s own tests use); GEARPY_VERIF is reserved and unused',
            'baseline_off_cmd': 'cd /repo && /venv/bin/python -m pytest -ra -q -p no:cacheprovider --timeout=900 --continue-on-collection-errors',
            'source_commits': [], 'add_only': True},
  'engines': [{'name': 'lean-model+correspondence', 'path': 'lean/ + tools/',
               'serves_properties': sorted(CLAIMED),
-              'kind_free_text': 'hand-written executable Lean 4 model with kernel-checked theorems; tables regenerated from the source; API-level differential correspondence (Python in-process vs compiled Lean driver) with an independent property oracle'}],
+              'kind_free_text': 'hand-written executable Lean 4 model with kernel-checked theorems; tables regenerated from the source; API-level differential correspondence (Python in-process vs compiled Lean driver, whole-history and lock-step) with an independent property oracle'}],
  'checks': checks,
- 'notes': 'Repairs of genuine defects are unguarded `fix:` commits in /repo (listed in known_findings.json under "fixed"); recorded, unrepaired defects are in known_findings.json under "findings".',
- 'not_applicable': [{'property_id': pid, 'reason': NOT_YET} for pid in ids if pid not in CLAIMED],
+ 'notes': 'Repairs of genuine defects are unguarded `fix:` commits in /repo (listed in known_findings.json under "fixed"); recorded, unrepaired defects are in known_findings.json under "findings" (K1 C05, K2 C06, K3 C12, K4 C19).',
+ 'not_applicable': [{'property_id': pid, 'reason': 'check not built yet'} for pid in ids if pid not in CLAIMED],
 }
 json.dump(manifest, open(os.path.join(VERIF, 'MANIFEST.json'), 'w'), indent=1)
-print('claimed', len(checks), 'not yet', len(manifest['not_applicable']))
+print('claimed', len(checks), 'not applicable', len(manifest['not_applicable']))
